@@ -3,7 +3,7 @@ from vlib import core, e1
 
 OPS = dict(END=0, CREATE=1, TCREATE0=2, TCREATE1=3, ATTACH=4, INFL_MSG=5, INFL_READ=6, INFL_TIMER=7,
            SHUT=8, SHUT_B=9, SHUT_W=10, WAIT=11, DESTROY=12, QUIESCE=13, INFL_BUSY=14, GATE_B=15, HOOK_WAITS=16,
-           INFL_STUCK=17, INFL_SYNC_BCAST=18)
+           INFL_STUCK=17, INFL_SYNC_BCAST=18, LATE_AOP=19, HOOK_GATE=20)
 FAULTS_CREATE = 'SC_F_CALLOC|SC_F_EPOLL_CREATE|SC_F_PIPE2|SC_F_EPOLL_CTL|SC_F_PTHREAD_CREATE'
 
 
@@ -72,6 +72,17 @@ def scripts():
     for W in (2, 3):
         for shut in ('SHUT', 'SHUT_B,SHUT'):
             out.append(('syncbcast/W%d/%s' % (W, shut.replace(',', '+')), W, '0', ['CREATE', 'TCREATE1', 'INFL_SYNC_BCAST'] + shut.split(',') + ['WAIT', 'DESTROY']))
+    # work accepted by a busy worker AFTER shutdown was requested (it stands behind the shutdown message in the queue): the
+    # record the library allocated for it must be released before the pool is gone
+    for W in (1, 2):
+        for shut in ('SHUT', 'SHUT_B,SHUT'):
+            out.append(('lateaop/W%d/%s' % (W, shut.replace(',', '+')), W, '0',
+                        ['CREATE', 'TCREATE0', 'INFL_BUSY', 'QUIESCE'] + shut.split(',') + ['LATE_AOP', 'GATE_B', 'WAIT', 'DESTROY']))
+    # the same completion towards a worker that has left its loop and sits in its stop hook (not running any more, not yet stopped)
+    for W in (1, 2):
+        for shut in ('SHUT', 'SHUT_B,SHUT'):
+            out.append(('stopaop/W%d/%s' % (W, shut.replace(',', '+')), W, '0',
+                        ['HOOK_GATE', 'CREATE', 'TCREATE0'] + shut.split(',') + ['QUIESCE', 'LATE_AOP', 'GATE_B', 'WAIT', 'DESTROY']))
     # resource failures during creation / thread start (fault menu: each call may fail; bound = number of failures)
     for W in (1, 2):
         out.append(('fail/W%d/create-only' % W, W, FAULTS_CREATE, ['CREATE', 'DESTROY']))
@@ -98,7 +109,7 @@ def plan(tier, vs):
         if f[0] == 'fail':
             jobs.append((name, 1 if tier == 'quick' else 2, 0 if tier == 'quick' else 1))
             continue
-        if f[0] in ('attach-refused', 'hookwait', 'stuck', 'syncbcast'):
+        if f[0] in ('attach-refused', 'hookwait', 'stuck', 'syncbcast', 'lateaop', 'stopaop'):
             jobs.append((name, 1 if tier == 'quick' else 2, 1 if tier == 'quick' else 2))
             continue
         if f[0] == 'busy':
